@@ -36,6 +36,8 @@ Verdict(r) ==
   ELSE IF \E i \in 1..Len(r.args.sigs) : r.obs.flag[i] /\ ~r.obs.dlog_ok[i] THEN "FlaggedOnlyWithCorrectKey"
   ELSE IF \E i \in 1..Len(r.args.sigs) : MustGroup(r, r.args.sigs[i].g) /\ ~r.obs.flag[i] THEN "EverySignatureOfIssuerFlagged"
   ELSE IF \E i \in 1..Len(r.args.sigs) : G(r, i).cls = "healthy" /\ r.obs.flag[i] THEN "OtherIssuersKeepVerdict"
+  \* interleavings generated from SigPipeline.tla carry the verdict TLC computed for every position
+  ELSE IF "spec_flagged" \in DOMAIN r.args /\ r.obs.flag # r.args.spec_flagged THEN "InterleavingVerdicts"
   ELSE IF IsBiasCheck(r.args.check) /\ r.obs.calls # <<-1>> /\
           (\E len \in 1..120 : ObsCalls(r, len) # ExpectedCalls(r, len)) THEN "WindowSizes"
   ELSE IF r.args.check = "CheckLCGNonceGMP" /\ r.obs.lcgcalls # <<<<-1, -1>>>> /\
